@@ -183,6 +183,8 @@ EvEnd ==
      /\ Check("C06", "FixpointEdit", (run.mode = "edit" /\ clean /\ normal /\ ~faulted) =>
                                         (post = pre /\ e.lock = run.preLock /\ \A f \in DOMAIN e.cls : e.cls[f] \in {"orig", "gone"}),
               [lock |-> e.lock, prelock |-> run.preLock])
+     /\ Check("C06", "InsertedAreRecognised", (run.mode = "edit" /\ normal) => ToSet(e.inserted_ids) \subseteq RefsOf(post),
+              [inserted |-> e.inserted_ids])
      /\ Check("C06", "ReadBackExact", (run.mode = "edit" /\ NoLockUsed(run.preLock, run.cache)) =>
                                         \A x \in Ids(new) : \A r \in RefsOf(pre) : x > r, [new |-> new])
      (* C07 *)
